@@ -73,6 +73,9 @@ func (fr *frame) call(ci ssa.CallInstruction, res ssa.Value, st *State, reach st
 	_ = recvDyn
 	if callee != nil {
 		key = callee.String()
+		if com.IsInvoke() {
+			sig = callee.Signature // named results of the concrete method
+		}
 	}
 	// intrinsic?
 	if h, ok := intrinsics[key]; ok {
@@ -100,6 +103,12 @@ func (fr *frame) call(ci ssa.CallInstruction, res ssa.Value, st *State, reach st
 	if c != nil && !c.Inline {
 		c.Used = true
 		setRes(fr.modular(key, c, callee, sig, args, st, reach))
+		return
+	}
+	if callee != nil && c == nil && isGeneratedPB(g, callee) && !strings.HasPrefix(callee.Name(), "Get") {
+		// generated protobuf code is not verified (E-codec): only its getters are inlined; anything else needs an assumed contract
+		ft.havoced[key+" (generated *.pb.go, assumed total and effect-free)"] = true
+		setRes(fr.havocResult(sig.Results(), st))
 		return
 	}
 	if callee != nil && isRepoFunc(callee) && len(callee.Blocks) > 0 && (c == nil || c.Inline) {
@@ -329,6 +338,13 @@ func (fr *frame) modular(key string, c *Contract, callee *ssa.Function, sig *typ
 		result = rvals[0]
 	default:
 		result = Val{Ty: rs, Tuple: rvals}
+	}
+	// the callee may allocate: the watermark only grows
+	{
+		ox := ft.stateGet(st, "$next", "Int")
+		nx := ft.fresh("next", "Int")
+		ft.fact("(>= " + nx + " " + ox + ")")
+		st.vars["$next"] = nx
 	}
 	env.st = st
 	env.old = pre
@@ -581,3 +597,18 @@ type intrinsic func(fr *frame, com *ssa.CallCommon, args []Val, st *State, reach
 var intrinsics = map[string]intrinsic{}
 
 var intrinsicByPattern = func(key string) intrinsic { return nil }
+
+func isGeneratedPB(g *Gen, fn *ssa.Function) bool {
+	if !isRepoFunc(fn) {
+		return false
+	}
+	pos := fn.Pos()
+	if !pos.IsValid() && fn.Syntax() != nil {
+		pos = fn.Syntax().Pos()
+	}
+	if !pos.IsValid() {
+		return false
+	}
+	f := g.prog.Fset.Position(pos).Filename
+	return strings.HasSuffix(f, ".pb.go") || strings.HasSuffix(f, ".pb.gw.go")
+}
